@@ -17,7 +17,7 @@ for line in open(diff).read().split('\n'):
     if line.startswith('diff --git'):
         flush()
     elif line.startswith('+++ b/'):
-        cur = line[6:]
+        cur = line[6:].split('\t')[0]
         files.setdefault(cur, []); order.append(cur)
     elif line.startswith('--- '):
         pass
